@@ -5,7 +5,10 @@
 //! (b) run level: after every step of runs of all 21 templates, every individual reachable from the
 //!     state (all populations, best-so-far, elitist archive, PSO personal/global bests, CRO molecule
 //!     bests) is re-evaluated with `raw_f` and compared bit-exactly; every leaf component's effect on
-//!     the evaluated flags is recorded.
+//!     the evaluated flags is recorded;
+//! (d) a `State` that is used again: consecutive runs (`Configuration::run`) of every template on ONE state with
+//!     different instances of the problem, each audited as in (b) against the objective function of its own
+//!     instance; component level: init + execute on one instance, then init + execute again for another one.
 use std::collections::BTreeSet;
 
 use hcommon::problems::{OneMax, Sphere, Tsp};
@@ -197,7 +200,7 @@ impl<Q: HProblem> Intern<Q> {
         }
     }
     fn ftab(&self, problem: &Q) -> String {
-        tagged("f", self.sols.iter().map(|s| { let w = problem.raw_f(s); fx(if w.is_nan() { f64::INFINITY } else { w }) }))
+        tagged("f", self.sols.iter().map(|s| match catch(|| problem.raw_f(s)) { Some(w) => fx(if w.is_nan() { f64::INFINITY } else { w }), None => fx(f64::NAN) }))
     }
 }
 /// `(snap (stack POP*) (best IND*) (arch IND*) (pbest IND*) (gbest IND*) (mols IND*))`, head of `stack` = top.
@@ -311,9 +314,16 @@ fn make_perm(name: &str, pr: &[f64]) -> Option<Box<dyn Component<Tsp>>> {
 /// `pops` are listed top first, each member with its evaluated flag. `pre = (component, depth)`: before the
 /// `before` snapshot the top `depth` populations are set aside, the setup component is initialised and
 /// executed, and the populations are put back (this seeds a memory from a DIFFERENT population).
+///
+/// `reinit = (problem2, pops2)`: the execution above is only the FIRST PHASE (it fills the component's memory with
+/// individuals of `problem`); then the state is reused for ANOTHER INSTANCE as `Configuration::run` would do it: the
+/// caller replaces the population stack (`pops2`, evaluated with `problem2`), the components' `init` run again, the
+/// setup component is executed again, and the component is executed on `problem2`. Reported are the snapshots around
+/// the re-initialisation `(reinit BEFORE-INIT AFTER-INIT)` and around the second execution, all against `problem2`.
 fn exec<Q: HProblem>(
     problem: &Q, comp: Box<dyn Component<Q>>, pops: Vec<Vec<(bool, Q::Encoding)>>, seed: u64,
     pre: Option<(Box<dyn Component<Q>>, usize)>, prep: impl FnOnce(&mut State<Q>, &Q),
+    reinit: Option<(Q, Vec<Vec<(bool, Q::Encoding)>>)>,
 ) -> String {
     let mut state: State<Q> = State::new();
     state.insert(Populations::<Q>::new());
@@ -337,6 +347,36 @@ fn exec<Q: HProblem>(
     });
     if !matches!(setup, Some(Ok(()))) { return "((res setup))".into(); }
     let mut it = Intern::<Q>::new();
+    let mut reinit_s = None;
+    let mut problem = problem;
+    if let Some((p2, pops2)) = &reinit {
+        if !matches!(catch(|| comp.execute(problem, &mut state)), Some(Ok(()))) { return "((res setup))".into(); }
+        // the caller's part of initialising the state for the next run
+        state.insert(Populations::<Q>::new());
+        for p in pops2.iter().rev() {
+            state.populations_mut().push(p.iter().map(|(ev, s)| if *ev { evaluated(p2, s.clone()) } else { Individual::new_unevaluated(s.clone()) }).collect());
+        }
+        let s0 = snapshot(&state, &mut it);
+        // the components' part (`Block::init` calls `init` of every child in order)
+        let inits = catch(|| -> Result<(), eyre::Report> {
+            if let Some((pc, _)) = &pre { pc.init(p2, &mut state)?; }
+            comp.init(p2, &mut state)
+        });
+        if !matches!(inits, Some(Ok(()))) { return "((res setup))".into(); }
+        let si = snapshot(&state, &mut it);
+        let again = catch(|| -> Result<(), eyre::Report> {
+            if let Some((pc, depth)) = &pre {
+                let mut aside = vec![];
+                for _ in 0..*depth { aside.push(state.populations_mut().pop()); }
+                pc.execute(p2, &mut state)?;
+                while let Some(p) = aside.pop() { state.populations_mut().push(p); }
+            }
+            Ok(())
+        });
+        if !matches!(again, Some(Ok(()))) { return "((res setup))".into(); }
+        reinit_s = Some(format!("(reinit {s0} {si})"));
+        problem = p2;
+    }
     let before = snapshot(&state, &mut it);
     let res = match catch(|| comp.execute(problem, &mut state)) {
         None => "panic",
@@ -344,13 +384,15 @@ fn exec<Q: HProblem>(
         Some(Ok(())) => "ok",
     };
     let after = catch(|| snapshot(&state, &mut it)).unwrap_or_else(|| "(snap)".into());
-    list([format!("(res {res})"), it.ftab(problem), format!("(before {before})"), format!("(after {after})")])
+    let mut out = vec![format!("(res {res})"), it.ftab(problem), format!("(before {before})"), format!("(after {after})")];
+    if let Some(r) = reinit_s { out.push(r); }
+    list(out)
 }
 
 /// Generic part of a component case: parses `(pops …)`, `(pre NAME depth p…)`, builds and runs.
 fn comp_case<Q: HProblem>(
     problem: &Q, name: &str, a: &[Sx], parse_sol: &dyn Fn(&[Sx]) -> Q::Encoding,
-    make: &dyn Fn(&str, &[f64]) -> Option<Box<dyn Component<Q>>>, special: impl FnOnce(&mut State<Q>, &Q),
+    make: &dyn Fn(&str, &[f64]) -> Option<Box<dyn Component<Q>>>, special: impl FnOnce(&mut State<Q>, &Q), problem2: Option<Q>,
 ) -> String {
     let find = |tag: &str| a.iter().find_map(|x| x.head().filter(|(t, _)| *t == tag).map(|(_, r)| r.to_vec()));
     let seed = find("seed").unwrap()[0].nat().unwrap();
@@ -371,7 +413,22 @@ fn comp_case<Q: HProblem>(
             match make(pn, &ppr) { Some(c) => Some((c, depth)), None => return "((res setup))".into() }
         }
     };
-    exec(problem, comp, pops, seed, pre, special)
+    let parse_pops = |ps: &[Sx]| -> Vec<Vec<(bool, Q::Encoding)>> {
+        ps.iter().map(|p| {
+            p.items().unwrap().iter().map(|s| {
+                let it = s.items().unwrap();
+                if it.first().and_then(|x| x.atom()) == Some("u") { (false, parse_sol(&it[1..])) } else { (true, parse_sol(it)) }
+            }).collect()
+        }).collect()
+    };
+    let reinit = match (find("reinit"), problem2) {
+        (Some(r), Some(p2)) => {
+            let ps = r.iter().find_map(|x| x.head().filter(|(t, _)| *t == "pops").map(|(_, r)| r.to_vec())).unwrap();
+            Some((p2, parse_pops(&ps)))
+        }
+        _ => None,
+    };
+    exec(problem, comp, pops, seed, pre, special, reinit)
 }
 
 /// `(comp NAME (prob …) (seed N) (params x…) (pops POP+) [(vel V+)] [(pre NAME depth x…)])`;
@@ -380,10 +437,13 @@ fn run_comp(a: &[Sx]) -> String {
     let name = a[0].atom().unwrap();
     let find = |tag: &str| a.iter().find_map(|x| x.head().filter(|(t, _)| *t == tag).map(|(_, r)| r.to_vec()));
     let prob = find("prob").unwrap();
+    // `(reinit (prob …) (pops …))`: the instance of the second phase
+    let prob2: Option<Vec<Sx>> = find("reinit").and_then(|r| r.iter().find_map(|x| x.head().filter(|(t, _)| *t == "prob").map(|(_, r)| r.to_vec())));
     match prob[0].atom().unwrap() {
         "real" => {
             type Q = Sphere;
             let problem = Sphere::new(prob[1].nat().unwrap() as usize, prob[2].float().unwrap(), prob[3].float().unwrap(), prob[4].float().unwrap());
+            let problem2 = prob2.map(|q| Sphere::new(q[1].nat().unwrap() as usize, q[2].float().unwrap(), q[3].float().unwrap(), q[4].float().unwrap()));
             let vel: Vec<Vec<f64>> = find("vel").unwrap_or_default().iter().map(|s| s.items().unwrap().iter().map(|x| x.float().unwrap()).collect()).collect();
             let is_pso = name == "ParticleVelocitiesUpdate";
             let is_eh = name == "EventHorizon";
@@ -398,15 +458,17 @@ fn run_comp(a: &[Sx]) -> String {
                     let _ = bu.init(problem, state);
                     let _ = catch(|| bu.execute(problem, state));
                 }
-            })
+            }, problem2)
         }
         "binary" => {
             let problem = OneMax::new(prob[1].nat().unwrap() as usize);
-            comp_case::<OneMax>(&problem, name, a, &|s| s.iter().map(|x| x.atom() == Some("t")).collect(), &make_binary, |_, _| {})
+            let problem2 = prob2.map(|q| OneMax::new(q[1].nat().unwrap() as usize));
+            comp_case::<OneMax>(&problem, name, a, &|s| s.iter().map(|x| x.atom() == Some("t")).collect(), &make_binary, |_, _| {}, problem2)
         }
         _ => {
             let problem = Tsp::random(prob[1].nat().unwrap() as usize, prob[2].nat().unwrap(), 9.0);
-            comp_case::<Tsp>(&problem, name, a, &|s| s.iter().map(|x| x.nat().unwrap() as usize).collect(), &make_perm, |_, _| {})
+            let problem2 = prob2.map(|q| Tsp::random(q[1].nat().unwrap() as usize, q[2].nat().unwrap(), 9.0));
+            comp_case::<Tsp>(&problem, name, a, &|s| s.iter().map(|x| x.nat().unwrap() as usize).collect(), &make_perm, |_, _| {}, problem2)
         }
     }
 }
@@ -584,6 +646,70 @@ fn gen_comp(r: &mut Sm, thorough: bool, emit: &mut dyn FnMut(String)) {
                 }
             }
         }
+        // a state that is used again for ANOTHER INSTANCE (what a second `Configuration::run` on the same `State` does):
+        // first phase on the instance `(prob …)`, which fills the component's memory; then a new population stack, the
+        // components' `init`, and the component itself on the instance `(reinit (prob …) …)`: nothing the first phase
+        // left in the state may be reported with a value of the old objective function
+        for size in [1usize, 2, 3, 5] {
+            for flv in [Flavour::Plain, Flavour::Ties] {
+                if size < 2 && flv != Flavour::Plain { continue; }
+                for (dshift, size2) in [(2.0, size), (-0.75, 1 + r.below(4) as usize), (0.5, size + 1)] {
+                    let dim = 1 + r.below(3) as usize;
+                    let hdr = format!("(prob real {dim} {} {} {}) (seed {})", fx(-1.0), fx(1.0), fx(0.0), r.below(1000));
+                    let prob2 = format!("(prob real {dim} {} {} {})", fx(-1.0), fx(1.0), fx(dshift));
+                    let ev = |p: Vec<(Vec<f64>, bool)>| -> Vec<(Vec<f64>, bool)> { p.into_iter().map(|(s, _)| (s, true)).collect() };
+                    let p0 = real_pop(r, size, dim, flv, false);
+                    let p1 = ev(real_pop(r, size, dim, flv, false));
+                    let q0 = real_pop(r, size2, dim, flv, false);
+                    let q1 = ev(real_pop(r, size2, dim, Flavour::Plain, false));
+                    let one = tagged("pops", [real_pop_s(&p0)]);
+                    let two = tagged("pops", [real_pop_s(&p0), real_pop_s(&p1)]);
+                    let re_one = format!("(reinit {prob2} {})", tagged("pops", [real_pop_s(&q0)]));
+                    let re_two = format!("(reinit {prob2} {})", tagged("pops", [real_pop_s(&q0), real_pop_s(&q1)]));
+                    // sometimes the second phase keeps one solution of the first (the same solution has another value now)
+                    let mut q0k = q0.clone();
+                    if !p0.is_empty() && !q0k.is_empty() { q0k[0] = p0[r.below(p0.len() as u64) as usize].clone(); }
+                    let re_keep = format!("(reinit {prob2} {})", tagged("pops", [real_pop_s(&q0k)]));
+                    emit(format!("(comp BestIndividualUpdate {hdr} (params) {one} {re_one})"));
+                    emit(format!("(comp BestIndividualUpdate {hdr} (params) {one} {re_keep})"));
+                    emit(format!("(comp PopulationEvaluator {hdr} (params) {one} {re_one})"));
+                    for k in [1.0, 3.0] {
+                        emit(format!("(comp ElitistArchiveUpdate {hdr} (params {}) {one} {re_one})", fx(k)));
+                        emit(format!("(comp ElitistArchiveIntoPopulation {hdr} (params) {two} (pre ElitistArchiveUpdate 1 {}) {re_two})", fx(k)));
+                    }
+                    emit(format!("(comp PersonalBestParticlesInit {hdr} (params) {one} {re_one})"));
+                    emit(format!("(comp PersonalBestParticlesUpdate {hdr} (params) {two} (pre PersonalBestParticlesInit 1) {re_two})"));
+                    emit(format!("(comp GlobalBestParticleUpdate {hdr} (params) {one} {re_one})"));
+                    emit(format!("(comp GlobalBestParticleUpdate {hdr} (params) {one} {re_keep})"));
+                    emit(format!("(comp ChemicalReactionInit {hdr} (params {}) {one} {re_one})", pstr(&[1.0, 0.0])));
+                    // CRO reactions: (products) (reactants = copies of members) (population), molecules seeded from the population
+                    for (name, nreact, nprod) in [("OnWallIneffectiveCollisionUpdate", 1usize, 1usize), ("DecompositionUpdate", 1, 2),
+                                                  ("IntermolecularIneffectiveCollisionUpdate", 2, 2), ("SynthesisUpdate", 2, 1)] {
+                        if size < nreact || size2 < nreact { continue; }
+                        let mk = |r: &mut Sm, pop: &Vec<(Vec<f64>, bool)>| -> String {
+                            let pop = ev(pop.clone());
+                            let react: Vec<(Vec<f64>, bool)> = pop.iter().take(nreact).cloned().collect();
+                            let prod = ev(real_pop(r, nprod, dim, Flavour::Plain, false));
+                            format!("(pops {} {} {})", real_pop_s(&prod), real_pop_s(&react), real_pop_s(&pop))
+                        };
+                        let (pa, pb) = (real_pop(r, size, dim, Flavour::Plain, false), real_pop(r, size2, dim, Flavour::Plain, false));
+                        let first = mk(r, &pa);
+                        let second = mk(r, &pb);
+                        emit(format!("(comp {name} {hdr} (params {}) {first} (pre ChemicalReactionInit 2 {}) (reinit {prob2} {second}))", pstr(&[0.5]), pstr(&[100.0, 10.0])));
+                    }
+                }
+            }
+        }
+        for n in [4usize, 6] {
+            for size in [1usize, 3] {
+                let tour = |r: &mut Sm| { let mut v: Vec<u64> = (0..n as u64).collect(); for i in (1..n).rev() { v.swap(i, r.below(i as u64 + 1) as usize); } nats(v) };
+                let p0 = list((0..size).map(|_| tour(r)));
+                let q0 = list((0..size + 1).map(|_| tour(r)));
+                for (name, params) in [("BestIndividualUpdate", vec![]), ("ElitistArchiveUpdate", vec![2.0]), ("ChemicalReactionInit", vec![1.0, 0.0])] {
+                    emit(format!("(comp {name} (prob perm {n} {}) (seed {}) (params {}) (pops {p0}) (reinit (prob perm {n} {}) (pops {q0})))", 11 + n, r.below(1000), pstr(&params), 40 + n));
+                }
+            }
+        }
         // PSO position update: prepared velocities (tiny / zero / ordinary / mixed), positions near 0 / ordinary / outside
         for dim in 1..=4usize {
             for vcat in 0..4u64 {
@@ -683,12 +809,14 @@ fn short(name: &str) -> String {
     base.rsplit("::").next().unwrap_or("?").chars().filter(|c| c.is_ascii_alphanumeric() || *c == '_').collect()
 }
 impl Audit {
+    fn new() -> Self { Audit { steps: 0, checked: 0, evaluated: 0, stale: None, frames: vec![], keys: BTreeSet::new(), leaves: vec![], result: String::new() } }
     fn check<Q: HProblem>(&mut self, i: &Individual<Q>, problem: &Q, place: &str, name: &str, idx: usize) {
         self.checked += 1;
         if let Some(o) = i.get_objective() {
             self.evaluated += 1;
-            let want = problem.raw_f(i.solution());
-            let want = if want.is_nan() { f64::INFINITY } else { want };
+            // a solution that survived from another instance may not even be in the domain of this objective function
+            // (a tour over more cities): then no value belongs to it
+            let want = match catch(|| problem.raw_f(i.solution())) { Some(w) => if w.is_nan() { f64::INFINITY } else { w }, None => f64::NAN };
             if o.value().to_bits() != want.to_bits() && self.stale.is_none() {
                 self.stale = Some(format!("({} {} {} {} {} {})", place, short(name), idx, Q::enc(i.solution()), fx(o.value()), fx(want)));
             }
@@ -774,18 +902,113 @@ fn run_run(a: &[Sx]) -> String {
     let name = a[0].atom().unwrap();
     let (v, i, iters, seed) = (a[1].nat().unwrap() as u32, a[2].nat().unwrap() as u32, a[3].nat().unwrap() as u32, a[4].nat().unwrap());
     let ek = if a[5].atom().unwrap() == "par" { EvalKind::Parallel } else { EvalKind::Sequential };
-    let vis = Audit { steps: 0, checked: 0, evaluated: 0, stale: None, frames: vec![], keys: BTreeSet::new(), leaves: vec![], result: String::new() };
+    let vis = Audit::new();
     match run_template(name, v, i, iters, seed, ek, vis) {
         Ok((vis, _)) => vis.result,
         Err(_) => "((out ctor-err) (steps 0) (checked 0) (evaluated 0) (stale none) (leaves))".into(),
     }
 }
+// ------------------------------------------------------------------ consecutive runs on ONE state
+/// Another instance of the same problem type: `j = 0` the instance itself; `1`, `2` the same search space with a
+/// different objective function; `3` a different dimension / domain / number of cities as well. (OneMax has no
+/// parameter that changes the function: only the dimension changes, and stale values cannot be told apart there.)
+/// Chosen so that `raw_f` of the new instance is total on solutions of the old one.
+fn instance_variant<P: HProblem>(p: &P, j: u32) -> P {
+    use std::any::Any;
+    let any: &dyn Any = p;
+    let out: Box<dyn Any> = if let Some(s) = any.downcast_ref::<Sphere>() {
+        Box::new(match j {
+            0 => Sphere::new(s.dim, s.lo, s.hi, s.shift),
+            1 => Sphere::new(s.dim, s.lo, s.hi, s.shift + 2.0),
+            2 => Sphere::new(s.dim, s.lo, s.hi, s.shift - 0.75),
+            _ => Sphere::new(s.dim + 1, s.lo - 1.0, s.hi + 0.5, s.shift + 0.5),
+        })
+    } else if let Some(o) = any.downcast_ref::<OneMax>() {
+        Box::new(OneMax::new(o.dim + j as usize))
+    } else if let Some(t) = any.downcast_ref::<Tsp>() {
+        let n = t.dist.len();
+        Box::new(match j {
+            0 => Tsp::new(t.dist.clone()),
+            1 => Tsp::random(n, 777, 50.0),
+            // the same distances with the cities renamed: a different function on the same tours
+            2 => Tsp::new((0..n).map(|a| (0..n).map(|c| t.dist[(a * 2 + 1) % n.max(1)][(c * 2 + 1) % n.max(1)]).collect()).collect()),
+            _ => Tsp::random(n + 2, 778, 9.0),
+        })
+    } else {
+        panic!("unknown problem type")
+    };
+    *out.downcast::<P>().expect("same type")
+}
+
+/// Runs the configuration on instance 0, then — on the SAME `State` — on the instances named by `seq`
+/// (public `Configuration::run`). Between two runs the harness does the caller's part of the initialisation
+/// ("the caller is responsible for initializing `state` properly"): a fresh, empty population stack, a
+/// freshly seeded random generator and the step observer of the new run. Everything else the state holds
+/// (best-so-far, archives, swarm and molecule memories, counters, parameters) is left to the components'
+/// `init`. Every run is audited step by step against the objective function of ITS instance.
+struct Rerunner {
+    seed: u64,
+    eval: EvalKind,
+    seq: Vec<u32>,
+}
+impl ConfigUser for Rerunner {
+    type Out = String;
+    fn use_config<P: HProblem>(self, config: &mahf::Configuration<P>, problem: &P) -> String {
+        use std::sync::{Arc, Mutex};
+        let mut problems: Vec<P> = vec![problem.clone()];
+        for j in &self.seq { problems.push(instance_variant(problem, *j)); }
+        let mut state: State<P> = State::new();
+        state.insert(mahf::logging::Log::new());
+        match self.eval {
+            EvalKind::Sequential => state.insert_evaluator(Sequential::<P>::new()),
+            EvalKind::Parallel => state.insert_evaluator(mahf::problems::Parallel::<P>::new()),
+        }
+        let mut results = vec![];
+        for (k, pk) in problems.iter().enumerate() {
+            state.insert(Populations::<P>::new());
+            state.insert(Random::new(self.seed + 7919 * k as u64));
+            let shared = Arc::new(Mutex::new(Audit::new()));
+            let (obs_v, obs_p) = (shared.clone(), pk.clone());
+            state.insert(mahf::verif::StepObserver::<P>(Box::new(move |ph, name, idx, st| {
+                obs_v.lock().unwrap_or_else(|e| e.into_inner()).step(ph, name, idx, st, &obs_p);
+            })));
+            let r = catch(|| config.run(pk, &mut state));
+            let outcome = match r { None => Outcome::Panic, Some(Err(e)) => Outcome::Err(format!("{e}")), Some(Ok(())) => Outcome::Ok };
+            {
+                let mut g = shared.lock().unwrap_or_else(|e| e.into_inner());
+                let readable = outcome != Outcome::Panic;
+                g.done(&outcome, if readable { Some(&state) } else { None }, pk);
+                results.push(g.result.clone());
+            }
+            // after a panic the state may be half-updated (a population or the observer taken out): stop here
+            if outcome == Outcome::Panic { break; }
+        }
+        tagged("runs", results)
+    }
+}
+
+/// `(rerun NAME V I ITERS SEED seq|par (seq J+))`
+fn run_rerun(a: &[Sx]) -> String {
+    let name = a[0].atom().unwrap();
+    let (v, i, iters, seed) = (a[1].nat().unwrap() as u32, a[2].nat().unwrap() as u32, a[3].nat().unwrap() as u32, a[4].nat().unwrap());
+    let eval = if a[5].atom().unwrap() == "par" { EvalKind::Parallel } else { EvalKind::Sequential };
+    let seq: Vec<u32> = a[6].head().unwrap().1.iter().map(|x| x.nat().unwrap() as u32).collect();
+    match with_template(name, v, i, iters, Rerunner { seed, eval, seq }) {
+        Ok(s) => list([s]),
+        Err(_) => "((runs))".into(),
+    }
+}
+
 fn run_case(input: &Sx) -> (String, String) {
     let (tag, a) = input.head().unwrap();
     match tag {
         "api" => ("Individual-api".into(), run_api(a)),
+        "rerun" => (format!("{}::rerun", a[0].atom().unwrap()), run_rerun(a)),
         "run" => (a[0].atom().unwrap().to_string(), run_run(a)),
-        "comp" => (a[0].atom().unwrap().to_string(), run_comp(a)),
+        "comp" => {
+            let reinit = a.iter().any(|x| x.head().map(|(t, _)| t == "reinit").unwrap_or(false));
+            (format!("{}{}", a[0].atom().unwrap(), if reinit { "::reinit" } else { "" }), run_comp(a))
+        }
         other => panic!("unknown case {other}"),
     }
 }
@@ -869,6 +1092,25 @@ fn main() {
                     let seed = a.seed * 1000 + k;
                     let ek = if (v + i + k as u32) % 4 == 1 { "par" } else { "seq" };
                     emit(format!("(run {name} {v} {i} {iters} {seed} {ek})"));
+                }
+            }
+        }
+    }
+    // (d) consecutive runs on ONE state with different instances of the problem (public `Configuration::run`): every
+    // template and parameter point, every kind of second instance; some come back to the first instance, some are three
+    // different instances in a row, some repeat the same instance
+    for (t, name) in TEMPLATES.iter().enumerate() {
+        for v in 0..N_VARIANTS {
+            let insts: Vec<u32> = if a.thorough { (0..N_INSTANCES).collect() } else { vec![(v + t as u32) % N_INSTANCES] };
+            for i in insts {
+                for k in 0..(if a.thorough { 3 } else { 1 }) {
+                    let seed = a.seed * 1000 + 700 + k;
+                    let ek = if (v + i + k as u32) % 4 == 2 { "par" } else { "seq" };
+                    for j in 1..=3u32 { emit(format!("(rerun {name} {v} {i} {iters} {seed} {ek} (seq {j}))")); }
+                    let j = 1 + (v + i + k as u32) % 3;
+                    emit(format!("(rerun {name} {v} {i} {iters} {seed} {ek} (seq {j} 0))"));
+                    emit(format!("(rerun {name} {v} {i} {iters} {seed} {ek} (seq {} {}))", 1 + j % 3, j));
+                    if k == 0 { emit(format!("(rerun {name} {v} {i} {iters} {seed} {ek} (seq 0))")); }
                 }
             }
         }
